@@ -12,7 +12,6 @@ M3  code -> spec: seeded random filters of order <= 8, cascades / banks, longer 
     on the real code, the observations logged and judged by TLC (spec/trace/FreqRespTrace.tla).
 """
 import cmath
-import json
 import math
 import os
 import types
@@ -361,7 +360,7 @@ def m2_dft(ctx, al, st, idx, stats):
 def m2(ctx, al, module, cfg):
     d = tlc.scratch_dir("c12")
     dump = os.path.join(d, "states")
-    r = tlc.require_ok(tlc.run(module, cfg, dump=dump), module, need_actions=("StepFr", "StepTd", "StepDft"))
+    r = tlc.require_ok(tlc.run(module, cfg, dump=dump), module, need_actions=("Pick", "StepFr", "StepTd", "StepDft"))
     ctx.add_tlc(r, "FreqResp (C12 grid): code-shaped evaluation == transfer function / time domain / defining sum")
     ctx.log("M1: TLC %d distinct states, %.1fs wall" % (r.distinct, r.wall))
     stats = dict(nan=0, fr_values=0, steady=0, impdft=0, diag=0, dft_values=0, dcmean=0)
@@ -372,6 +371,8 @@ def m2(ctx, al, module, cfg):
         n += 1
         kind = st["case"]["kind"]
         kinds[kind] = kinds.get(kind, 0) + 1
+        if kind == "group":
+            continue                             # a group of the grid before Pick: nothing to observe
         if kind == "fr":
             conts.add(st["case"]["cont"])
             m2_fr(ctx, al, st, n, stats)
@@ -387,38 +388,11 @@ def m2(ctx, al, module, cfg):
             raise tlc.MachineryError("C12 grid never exercised clause %r" % key)
     if len(conts) < 9:
         raise tlc.MachineryError("C12 grid misses container kinds: %s" % sorted(conts))
+    n -= kinds.get("group", 0)
     ctx.traces += n
     ctx.log("M2: %d spec states replayed %s; nan values %d, steady-state samples %d, impulse-response DFTs %d, "
             "dft values %d, register-machine diagnostics %d" %
             (n, kinds, stats["nan"], stats["steady"], stats["impdft"], stats["dft_values"], stats["diag"]))
-
-
-# ---------------------------------------------------------------------------------------------------
-# M3 runner.  Like tracecheck.run_records, but it refuses (exit 2) any TLC run that did not finish the whole
-# batch cleanly: TLC can report a StackOverflowError on one record, stop judging the rest and still exit 0.
-def run_records_strict(ctx, module, constants, recs, what, chunk=500):
-    bad = {}
-    for off in range(0, len(recs), chunk):
-        part = recs[off:off + chunk]
-        d = tlc.scratch_dir("recs")
-        tf = os.path.join(d, "recs.json")
-        with open(tf, "w") as fh:
-            json.dump({"recs": part}, fh)
-        cfg = os.path.join(d, "recs.cfg")
-        tracecheck.write_cfg(cfg, constants, "RInit", "RNext", ("Judge",))
-        r = tlc.run(module, cfg, env={"TRACE_FILE": tf}, coverage=False, jvm=("-Xss16m",))
-        clean = (r.rc == 0 and not r.violated and not r.errors
-                 and "Model checking completed. No error has been found." in r.out
-                 and " 0 states left on queue" in r.out and 0 < r.distinct <= len(part))
-        if not clean:
-            raise tlc.MachineryError("%s: TLC did not judge the whole batch (rc=%s violated=%s)\n%s" %
-                                     (what, r.rc, r.violated, "\n".join(
-                                         ln for ln in r.out.splitlines() if not ln.startswith("Computed"))[-3000:]))
-        ctx.add_tlc(r, what)
-        for p in r.prints:
-            if isinstance(p, tuple) and p and p[0] == "REJECT":
-                bad[p[1] + off] = tuple(p[2:])
-    return bad
 
 
 # ---------------------------------------------------------------------------------------------------
@@ -673,8 +647,8 @@ def m3(ctx, al, count, maxlen, maxblk):
             m3_dft(ctx, al, rng, recs, meta, maxblk)
     if len(recs) < count:
         raise tlc.MachineryError("C12 M3: only %d of %d records could be generated" % (len(recs), count))
-    bad = run_records_strict(ctx, "FreqRespTrace", {"MaxLen": maxlen, "Cases": "{}"}, recs,
-                             what="C12 recorded freq_response / filtering / dft observations", chunk=500)
+    bad = tracecheck.run_records(ctx, "FreqRespTrace", {"MaxLen": maxlen, "Cases": "<<>>"}, recs,
+                                 what="C12 recorded freq_response / filtering / dft observations", chunk=500)
     ctx.traces += len(recs) - len(bad)
     kinds = {}
     for rec in recs:
